@@ -8,18 +8,19 @@ VARIABLES l
 tvars == <<vars, l>>
 Mark(k) == TLCSet(42, IF TLCGet(42) > k THEN TLCGet(42) ELSE k)
 IsEvent(ev) == l <= Len(Trace) /\ Trace[l].ev = ev /\ l' = l + 1
-TInit == in = "empty" /\ inform = "auto" /\ outform = "bin" /\ out = "stdout" /\ pc = "done" /\ exit = 1 /\ created = FALSE /\ l = 1 /\ TLCSet(42, 1)
+TInit == in = "empty" /\ inform = "auto" /\ outform = "bin" /\ out = "stdout" /\ flags = "plain" /\ pc = "done" /\ exit = 1 /\ created = FALSE /\ l = 1 /\ TLCSet(42, 1)
 TCall == /\ IsEvent("Call") /\ pc = "done"
-         /\ in' = Trace[l].input.in /\ inform' = Trace[l].input.inform /\ outform' = Trace[l].input.outform /\ out' = Trace[l].input.out
-         /\ pc' = "parse" /\ exit' = -1 /\ created' = FALSE
+         /\ in' = Trace[l].input.in /\ inform' = Trace[l].input.inform /\ outform' = Trace[l].input.outform /\ out' = Trace[l].input.out /\ flags' = Trace[l].input.flags
+         /\ pc' = "flags" /\ exit' = -1 /\ created' = FALSE
 Silent == /\ l <= Len(Trace) /\ UNCHANGED l /\ Next
 \* the stage at which the model's run ended, read off its state
-EndStage == IF ~InputAccepted(in, inform) THEN "parse" ELSE IF outform = "bogus" THEN "outform" ELSE IF out = "dirMissing" THEN "open" ELSE "quote"
-TReturn == /\ IsEvent("Return") /\ pc = "done" /\ exit = 1
-           /\ Trace[l].exit = 1 /\ ~Trace[l].crash /\ Trace[l].fatalLine
+EndStage == IF FlagsRefused THEN "flags" ELSE IF ~InputAccepted(in, inform) THEN "parse" ELSE IF outform = "bogus" THEN "outform" ELSE IF out = "dirMissing" THEN "open" ELSE "quote"
+TReturn == /\ IsEvent("Return") /\ pc = "done" /\ exit \in {1, 2}
+           /\ Trace[l].exit = exit /\ ~Trace[l].crash
+           /\ Trace[l].fatalLine = (exit = 1) /\ Trace[l].usage = (exit = 2)      \* one FATAL line, or the flag package's usage text
            /\ Trace[l].created = created
            /\ Trace[l].stage = EndStage
-           /\ exit' = 2 /\ UNCHANGED <<in, inform, outform, out, pc, created>>
+           /\ exit' = 3 /\ UNCHANGED <<in, inform, outform, out, flags, pc, created>>
 TNext == (TCall \/ Silent \/ TReturn) /\ Mark(l')
 TSpec == TInit /\ [][TNext]_tvars
 TraceAccepted == PrintT(<<"HWM", TLCGet(42)>>) /\ TLCGet(42) = Len(Trace) + 1
